@@ -180,6 +180,9 @@ def key_of(i):
     if is_int(i):
         return str(i)
     if isinstance(i, str):
+        if i == "":
+            # the empty string has its own type ("empty"); Miller refuses it as an index, the reference only speaks of string and int keys
+            raise Unmodelled("empty string as a map key")
         return i
     raise Unmodelled("map key of type %s" % typeof(i))
 
